@@ -64,6 +64,21 @@ CHECKS = {
         "list, and the Task rows/LMI couplings/objective reconstructed from the recorded calls against the declared functionals.",
    note="MOSEK is modelled by pv/standins/mosek (self-checked against the manual's dual equations), not run; thresholds DESIGN 2.8",
    tech="translation validation of recorded solver-API traces + differential run of two back-ends under certificate/primal oracles"),
+ "C05": dict(cat="translation_validation", ref="DESIGN 3/C05",
+   text="With the solver call stubbed at the wrapper boundary, (1) the multiset of objects crossing the boundary is reconciled "
+        "with the client-side declaration log + class/partition constraints (each as often as declared, declared sense, nothing "
+        "else, also at a second solve after new samples); (2) every emitted cvxpy constraint/objective is evaluated at random "
+        "(G,F,M) against the independent evaluator and the MOSEK Task is reconstructed from recorded calls; (3) dense and "
+        "sparse translators are called on random expression shapes.",
+   note="trusted: pv/canon.py; MOSEK through pv/standins/mosek; identity testing at random points, 1e-9 relative",
+   tech="translation validation at the wrapper boundary (declared log vs emitted solver data), solver stubbed"),
+ "C14": dict(cat="exploration", ref="DESIGN 3/C14",
+   text="Programs solved with trace/logdetN heuristics (random tolerances, both modes, both back-ends); monitors record Gram and "
+        "value after every inner solve and when duals are assigned; oracle: duals assigned before any heuristic solve, C01 "
+        "certificate vs originally sent constraints, dual return = plain-solve dual, primal within [opt - tol, opt], C02 "
+        "feasibility, trace monotone, heuristic problem never infeasible.",
+   note="trusted: pv/canon.py, thresholds DESIGN 2.8; MOSEK via stand-in",
+   tech="runtime monitor of inner solver calls + certificate/primal oracles + differential plain solve"),
 }
 NOT_YET = {}
 
